@@ -35,7 +35,13 @@ fn main() {
         }
         return;
     }
-    // search
+    // search [PID]: every case of this program states the law of C13
+    if let Some(p) = args.get(1) {
+        if p != "C13" {
+            println!("no case for {p}");
+            return;
+        }
+    }
     let secs = [0u64, 1, 2, 59, 1 << 31, (1 << 32) + 1, u64::MAX / 191, u64::MAX / 2, u64::MAX - 17, u64::MAX];
     let nanos = [0u32, 1, 500_000_000, 999_999_999];
     let factors = [0u64, 1, 2, 3, 10, 1 << 16, 1 << 32, (1 << 40) + 7, u64::MAX];
